@@ -140,7 +140,8 @@ def st_case(draw):
             ops.append({"op": "fitopts", "opts": o})
     # the history always ends with a valid request that is compared with a fresh curve
     ops.append({"op": "pre", "req": draw(st_valid_request())})
-    return {"src": src, "ops": ops}
+    # another, still untouched curve object whose public pipeline attributes are edited in place by its owner
+    return {"src": src, "ops": ops, "attr_inplace": draw(st.sampled_from([False, False, True, False]))}
 
 
 class Curves:
@@ -190,9 +191,18 @@ def apply_fresh(curves, steps, opts):
 
 def check_case(case, ctx):
     curves = Curves(case["src"], ctx)
+    desc0 = {"curve": case["src"]["kind"]}
+    if case.get("attr_inplace"):
+        other = curves.fresh()
+        other.preprocessing.extend(["compute_tip_position", "correct_tip_offset"])
+        other.preprocessing_options["correct_tip_offset"] = {"method": "fit_constant_line"}
+        probe = curves.fresh()
+        ctx.check(probe.preprocessing == [] and probe.preprocessing_options == {}, "state-shared-between-curves", desc0,
+                  f"after in-place edits of ANOTHER curve's preprocessing / preprocessing_options a new curve reports "
+                  f"{probe.preprocessing} {probe.preprocessing_options}")
+        ctx.event("attr_inplace_on_other_curve")
     idnt = curves.fresh()
     raw0 = raw_snapshot(idnt)
-    desc0 = {"curve": case["src"]["kind"]}
     last_req = None
     distinct_valid = set()
     had_reject_then_more = False
